@@ -280,6 +280,18 @@ ASSUMPTIONS = [
 ]
 
 
+def prepare_history_replay(hist):
+    """A replay file that carries the history of a worker process re-executes whole runs, which read the
+    reference outcomes of their chunks: regenerate those (they are removed at the end of every campaign)."""
+    from sim import driver
+
+    cfg = dict(hist["cfg"], phase="ref")
+    chunks = sorted({i % cfg["n_chunks"] for g in hist["groups"] for i in g})
+    res, errors, _ = driver.run_batch(MODULE, [{"env": {"hashseed": 0, "cache_size": -1}, "indices": chunks}], hist["master"], cfg, n_workers=16, chunk=2, wall_per_chunk=900)
+    if errors or len(res) != len(chunks):
+        raise RuntimeError(f"reference phase of the replay failed: {errors[:2]}")
+
+
 def replay(path):
     from sim import campaign
 
